@@ -154,6 +154,14 @@ Record sstate := mkSS {
 
 Definition ss_init : sstate := mkSS 0 false false [].
 
+(* the pixel of an object whose columns contain x: tile offsets in uint8, flips, tile lookup *)
+Definition sprite_tile_pixel (s : scene) (x y spriteX spriteY tileNumber attributes : N) : res N :=
+  let ox := (sub8 x spriteX) mod 8 in
+  let oy := (sub8 y spriteY) mod 8 in
+  let ox' := if flag attributes 32 then sub8 7 ox else ox in
+  let oy' := if flag attributes 64 then sub8 7 oy else oy in
+  read_tile_pixel s tileNumber ox' oy'.
+
 Fixpoint sprite_scan (s : scene) (x y : N) (l : list (N * bool)) (st : sstate) : res sstate :=
   match l with
   | [] => Ok st
@@ -166,11 +174,7 @@ Fixpoint sprite_scan (s : scene) (x y : N) (l : list (N * bool)) (st : sstate) :
           do spriteY <- oam_at s spriteAddr;
           do tileNumber <- oam_at s (add16 spriteAddr 2);
           do attributes <- oam_at s (add16 spriteAddr 3);
-          let ox := (sub8 x spriteX) mod 8 in
-          let oy := (sub8 y spriteY) mod 8 in
-          let ox' := if flag attributes 32 then sub8 7 ox else ox in
-          let oy' := if flag attributes 64 then sub8 7 oy else oy in
-          do p <- read_tile_pixel s tileNumber ox' oy';
+          do p <- sprite_tile_pixel s x y spriteX spriteY tileNumber attributes;
           let st' := mkSS p (flag attributes 128) (flag attributes 16)
                           (add16 spriteAddr 3 :: add16 spriteAddr 2 :: spriteAddr :: add16 spriteAddr 1
                            :: reads st) in
